@@ -6,6 +6,7 @@
 pub mod msg;
 pub mod cand;
 pub mod turn;
+pub mod agent;
 
 use crate::{Args, Rng, Run, hex};
 use msg::*;
@@ -111,7 +112,9 @@ fn do_prio(run: &mut Run, t: IceCandidateType, comp: u16, tr: &str) {
     if (1..=256).contains(&comp) {
         // UDP: local preference 65535 (single-homed, RFC 8445 §5.1.2.1); TCP flavours: the RFC fixes the
         // shape of the formula, the local preference is the implementation's choice (any 16-bit value)
-        let lp = if tr == "udp" { lp } else { let _ = lp; ((v >> 8) & 0xffff) as u64 };
+        // the TCP flavours use rustrtc's documented table passive 65535 / active 65534 / so 65533 (an
+        // implementation choice — it deviates from RFC 6544 §4.2's direction preferences, see NOTES — pinned so
+        // that a silent change is reported)
         let want = rfc_priority(t, lp, comp as u64);
         if v as u64 != want {
             run.fail(&format!("codec:priority:{}:{}", typ_name(t), tr), &format!("prio {input}"),
@@ -265,6 +268,8 @@ pub fn run(args: &Args) {
     cand::run_all(&mut run, &mut rng, thorough);
     // (7) TURN
     turn::run_all(&mut run, &mut rng, thorough);
+    // (7b) the agent's own check order and messages
+    agent::run_all(&mut run, &mut rng, thorough);
     // (8) ICE server URIs (RFC 7064 / 7065)
     uri_cases(&mut run, &mut rng, thorough);
 
